@@ -119,7 +119,7 @@ func (z *ZodXor[T, R]) validate(input any, chks []core.ZodCheck, parseCtx *core.
 		if len(allErrors) == 0 {
 			return nil, issues.CreateInvalidSchemaError("no xor options provided", input, parseCtx)
 		}
-		return nil, issues.CreateInvalidUnionError(allErrors, input, parseCtx)
+		return nil, issues.CreateInvalidUnionErrorWithInst(allErrors, input, parseCtx, &z.internals.ZodTypeInternals)
 	default:
 		return nil, issues.CreateInvalidXorError(len(successes), input, parseCtx)
 	}
